@@ -306,8 +306,12 @@ claim(
 
 claim(
     "C15",
-    "def-use shape analysis of the three returned parts (plain slices at token boundaries of the same string)",
-    "Decides a necessary part of the exact-concatenation clause: in "
+    "def-use shape analysis of the three returned parts (plain slices at token boundaries of the same string); "
+    "constant folding of the token sets the section-start scan matches by prefix / as a whole line",
+    "Decides two necessary parts. (1) Every token matched by PREFIX in _get_token_start_idx is marked (':x' or "
+    "'X:'), bare-word numpydoc titles are matched only as a whole, underlined line — else a header sentence starting "
+    "with `Returns` / `Parameters` and all prose after it is lost in every conversion (this was a genuine defect, "
+    "repaired). (2) Of the exact-concatenation clause: in "
     "parse_docstring_into_header_args_footer the header, args/returns and footer returned for one docstring "
     "must each be an untransformed slice of it, at boundaries produced by _get_token_start_idx / "
     "_get_token_last_idx of that same string; any text transformation applied to a part before the return "
